@@ -111,6 +111,11 @@ def run(rep, tier, seed, build):
     progs = corpus("C12") + programs(seed, n, nops)
     res = run_seq(rep, progs)
     sj = sealed_journal_scenarios(tier)
+    # deleting one keyspace must not cost another keyspace its data (the journal both share is reclaimed too early): the C10
+    # scenario, judged here for the isolation clause
+    from props.c10 import deleted_keyspace_eviction, DKE
+    from common import pmap
+    sj += [x for x in pmap(deleted_keyspace_eviction, DKE[:2] if tier == "quick" else DKE, workers=4) if x]
     for msg, prog in sj[:2]:
         rep.violation("# C12: %s\n%s" % (msg, prog))
     coverage(rep, res, progs, RULE, dict(sealed_journal_scenarios=2 if tier == "quick" else 3))
